@@ -16,6 +16,12 @@ type Env struct {
 	old   *State // state for old(...)
 	bound map[string]TV
 	iter  string // term for #k, "" if none
+	skolem map[string]*skolemInst // per-call-site function symbols of the contract being applied
+}
+
+type skolemInst struct {
+	fn  string
+	def *SpecFun
 }
 
 type trErr string
@@ -502,6 +508,19 @@ func (env *Env) trCall(x ECall) TV {
 			payload = fmt.Sprintf("(%s %s)", eng.boxFn(so), val)
 		}
 		return TV{T: fmt.Sprintf("(mk-iface %s %s)", eng.typeIDTerm(el), payload), S: "Iface"}
+	case "boxedSlice":
+		// boxedSlice(x): the slice behind the interface argument x, which the caller built from a slice value
+		a := fc.argSSA(env, args[0])
+		mi, ok := a.(*ssa.MakeInterface)
+		if !ok {
+			env.fail("boxedSlice(%s): the argument is not an interface built from a slice at the call site", args[0])
+		}
+		if _, ok := mi.X.Type().Underlying().(*types.Slice); !ok {
+			env.fail("boxedSlice(%s): the boxed value is not a slice", args[0])
+		}
+		tv := fc.v(mi.X)
+		tv.G = mi.X.Type()
+		return tv
 	case "closureResult":
 		// closureResult(f, a1, ...): the value the function literal bound to parameter f returns on the
 		// arguments, according to its own contract (which must have an ensures `res == E`)
@@ -528,7 +547,9 @@ func (env *Env) trCall(x ECall) TV {
 				cenv.vars[n] = env.tr(args[i+1])
 			}
 		}
-		cenv.bound = env.bound
+		// the literal's contract is closed over its own parameters and captured variables: the quantified
+		// variables of the clause being translated must not capture them (arguments are already translated)
+		cenv.bound = nil
 		for _, c := range ccon.Ensures {
 			if b, ok := c.E.(EBin); ok && b.Op == "==" {
 				if id, ok := b.L.(EIdent); ok && id.Name == rname {
@@ -649,6 +670,16 @@ func (env *Env) trCall(x ECall) TV {
 		// heapof("F.S_x.f") : the raw heap array in the current state
 		n := args[0].(EStr).Val
 		return TV{T: env.st.get(n), S: eng.heapSort(n)}
+	}
+	if sk, ok := env.skolem[x.Fn]; ok {
+		if len(sk.def.Args) != len(args) {
+			env.fail("%s: want %d args", x.Fn, len(sk.def.Args))
+		}
+		var ts []string
+		for _, a := range args {
+			ts = append(ts, env.tr(a).T)
+		}
+		return TV{T: "(" + sk.fn + " " + strings.Join(ts, " ") + ")", S: sortOfTypeName(sk.def.Result)}
 	}
 	if d, ok := eng.cs.Spec.Defs[x.Fn]; ok {
 		if len(d.Params) != len(args) {
